@@ -68,10 +68,16 @@ class Conc(object):
         # hosts of the domain
         self.dom = {}
         used = set([self.short])
+        eqlen = rng.randint(3, 7)
         for i in range(1, nid["dom"] + 1):
             while True:
-                lab = word(rng, HOST1, 2, 2) + word(rng, HOSTN, 0, 5)
-                if rng.random() < 0.2:
+                if fam == "eqlen":
+                    # names of equal length; with three or more hosts the last one may be longer
+                    n = eqlen + (rng.randint(1, 3) if i == nid["dom"] >= 3 and rng.random() < 0.5 else 0)
+                    lab = word(rng, HOST1, 2, 2) + word(rng, HOSTN, n - 2, n - 2)
+                else:
+                    lab = word(rng, HOST1, 2, 2) + word(rng, HOSTN, 0, 5)
+                if fam != "eqlen" and rng.random() < 0.2:
                     lab += pick(rng, ["-", "_", "."]) + word(rng, HOSTN, 1, 3)
                 if not any(lab in u or u in lab for u in used):
                     break
